@@ -726,6 +726,16 @@ func init() {
 			"0", "-0", "0.0", "-0.0", " -0", "-0e7", "0e-3", "-0.000e+1", "0.0e3 ", "1", "-1", "false", "true", `""`, `"sent"`} {
 			pool = append(pool, []byte(s))
 		}
+		// what counts as whitespace in front of the null fallback is JSON's four bytes and nothing else: every byte value,
+		// alone and between real whitespace, in front of `null` and of one value of each reader's type
+		for b := 0; b < 256; b++ {
+			for _, v := range []string{"null", "null,1", "true", "7", `"s"`} {
+				if v != "null" && b%16 != 11 && b%16 != 12 && b > 0x21 {
+					continue
+				}
+				pool = append(pool, append([]byte{byte(b)}, v...), append(append([]byte{' ', byte(b), '\n'}, v...)), append([]byte{'\t', byte(b)}, v...))
+			}
+		}
 		for i := 0; i < c.scale(1500, 15000); i++ {
 			var d []byte
 			switch c.Rng.Intn(5) {
@@ -746,7 +756,10 @@ func init() {
 		var cases []Case
 		for _, d := range pool {
 			h := hx(d)
-			nullRes := strings.Fields(runAPI("ReadNull", []string{h}))
+			nullImpl := runAPI("ReadNull", []string{h})
+			nullRes := strings.Fields(nullImpl)
+			// the fallback's own notion of `null` against the Lean specification (JSON whitespace, then the four letters)
+			cases = append(cases, specCase("null:spec", "specLit null "+h, okErr(nullImpl, false)))
 			for _, fn := range decodeFns {
 				for _, t0 := range fn.sentinels {
 					impl := runAPI(fn.name, []string{h, t0})
@@ -777,7 +790,7 @@ func init() {
 		if err := c.Suite.Run(cases); err != nil {
 			return "", err
 		}
-		return "all nine Decode functions with two non-zero sentinel targets each on null variants, reader inputs, mutations and integer boundary inputs; compared with the model (generic decode over the model readers) and with the property stated over the implementation's own reader and ReadNull", nil
+		return "all nine Decode functions with two non-zero sentinel targets each on null variants, reader inputs, mutations and integer boundary inputs; compared with the model (generic decode over the model readers) and with the property stated over the implementation's own reader and ReadNull, the latter compared with the Lean specification of the null literal; every byte value in front of null", nil
 	}
 }
 
